@@ -26,7 +26,7 @@
 (* - the orders reachable by renaming modules / reordering the command     *)
 (* line.                                                                   *)
 (***************************************************************************)
-EXTENDS PyBind, Json, IOUtils, SequencesExt
+EXTENDS PyBind, Linker, Json, IOUtils, SequencesExt
 
 CONSTANTS Source              \* "file": projects from IOEnv.PROJECT_FILE
 Projects == JsonDeserialize(IOEnv.PROJECT_FILE)
@@ -295,4 +295,21 @@ NameRows == UNION {
 \* never a different object
 ResolvesRightOrNot == phase = "done" => \A r \in NameRows : r.res = <<>> \/ r.res = r.py
 EmitNames == phase = "done" => PrintT(ToJson([pid |-> pid, sched |-> sched, rows |-> SetToSeq(NameRows)]))
+
+\* ------------------------------------------------------------------ cross-references in docstrings (Linker.tla)
+\* contexts: every registered module, package and class; identifiers: every base name in the
+\* system, every alias name, every "owner.member" pair, every registered full name of two or three plain components
+\* (a function or attribute has no members and expands names in its parent: its rows equal its parent's, so scopes suffice)
+XCtx == {o \in 1..Len(st.objs) : Registered(st, o) /\ Cls(st, o) \in Scopes}
+XReg == {o \in 1..Len(st.objs) : Registered(st, o)}
+XNames == {<<st.objs[o].name.b>> : o \in XReg}
+          \cup UNION {{<<n>> : n \in DOMAIN st.alias[p]} : p \in XReg}
+          \cup UNION {{<<st.objs[p].name.b, n>> : n \in DOMAIN st.cont[p]} : p \in XReg}
+          \cup {[i \in 1..Len(k) |-> k[i].b] : k \in {k \in DOMAIN st.all : Len(k) \in 2..3 /\ \A i \in 1..Len(k) : k[i].d = 0}}
+XRow(o, parts) == LET x == XRef(st, o, parts, MO)
+                  IN [ctx |-> FN(st, o), name |-> parts, t |-> IF x.t = NoObj THEN <<>> ELSE FN(st, x.t), amb |-> x.amb, step |-> x.step]
+XRefRows == {XRow(o, parts) : o \in XCtx, parts \in XNames}
+XRefDesign == phase = "done" => \A o \in XCtx, parts \in XNames :
+                 FullNameWins(st, o, parts, MO) /\ LocalFirst(st, o, parts, MO) /\ AnswerRegistered(st, o, parts, MO)
+EmitNamesX == phase = "done" => PrintT(ToJson([pid |-> pid, sched |-> sched, rows |-> SetToSeq(NameRows), xrefs |-> SetToSeq(XRefRows)]))
 =============================================================================
